@@ -1,3 +1,6 @@
 import SlipVerif.Model.Num
+import SlipVerif.Model.Reader
+import SlipVerif.Model.ReaderGen
 import SlipVerif.Driver.Num
+import SlipVerif.Driver.Reader
 import SlipVerif.Driver.Util
